@@ -146,6 +146,9 @@ func Generate(r *rand.Rand, profile string, concurrent bool) *Plan {
 		p.InitDup = 1 + r.IntN(5)
 		if p.Big && r.IntN(2) == 0 {
 			p.InitDup = 100 + r.IntN(3)
+			if r.IntN(3) == 0 {
+				p.InitDup = 132 + r.IntN(7) // every entry 34-40 times: positions beyond 1024 for the longest lists
+			}
 		}
 	}
 	rs := []int{0, 0, 10, 20, 50}
@@ -229,6 +232,9 @@ func Generate(r *rand.Rand, profile string, concurrent bool) *Plan {
 				o.Dup = 1 + r.IntN(5)
 				if p.Big && r.IntN(2) == 0 {
 					o.Dup = 100 + r.IntN(3)
+					if r.IntN(3) == 0 {
+						o.Dup = 132 + r.IntN(7)
+					}
 				}
 			}
 		case x < 88:
@@ -571,9 +577,9 @@ type sim struct {
 //go:norace
 func withDup(list []string, dup int) []string {
 	if dup >= 100 && len(list) > 0 {
-		// every entry written dup-98 times in a row (2-4): the same endpoints in the
-		// same priority order, in a list two to four times as long - positions run
-		// past 64 and 128 for long lists
+		// every entry written dup-98 times in a row (2-4, or 34-40): the same
+		// endpoints in the same priority order, in a list that many times as long -
+		// positions run past 64 and 128 (past 1024) for long lists
 		var out []string
 		for _, e := range list {
 			for k := 0; k < dup-98; k++ {
